@@ -6,7 +6,8 @@ properties create), per-compiler cell state, one small-step machine per thread w
 steps are the entries of ExcelCompiler._evaluate.  Theorems: C07_noninterference
 (+ _trace), C07_fresh; C07_n_threads, C07_serializable, C07_same_projections,
 C07_steps_commute, C07_result_alone, C07_completion_alone, C07_same_count_same_view,
-C07_warm_equals_fresh, C07_namespace_lazy (Proofs/C07Ser.v, C07Warm.v); the
+C07_warm_equals_fresh, C07_set_value_warm_equals_fresh, C07_namespace_lazy (Proofs/C07Ser.v,
+C07Warm.v); the
 dependence on thread-locality: C07_shared_namespace_interferes,
 C07_shared_context_stack_interferes (and Refuted/C07_shared.v).
 
